@@ -28,6 +28,10 @@ def parse_floats(toks):
     return [float.fromhex(t) for t in toks]
 
 
+def finite(l):
+    return all(v == v and abs(v) < 1e300 for v in l)
+
+
 # ------------------------------------------------------------------------------- generators
 def gen_smooth(r):
     hs = r.random() < 0.7
@@ -524,6 +528,9 @@ def check(run):
         tie("atimes", lx, iox, mox)
         tie("atimes", ly, ioy, moy)
         Lx, Ly = parse_floats(iox.split()[1:]), parse_floats(ioy.split()[1:])
+        if not (finite(Lx) and finite(Ly)):
+            run.violation("atimes:not-finite", "atimes returned non-finite values for finite input [case: %s]" % lx[:300], {"kind": "unit", "case": lx, "case2": ly, "impl": iox})
+            continue
         ex, ey = lap_oracle(c, c["x"]), lap_oracle(c, c["y"])
         for (l, io, got, exp) in ((lx, iox, Lx, ex), (ly, ioy, Ly, ey)):
             if len(got) != len(exp) or any(not close(g, float(e)) for g, e in zip(got, exp)):
@@ -569,7 +576,7 @@ def check(run):
             run.mismatch("solve", l, so[:400], mo[:400])
         # oracle: A x recomputed exactly from the output
         nxp = [n if pe else n + 1 for n, pe in zip(c["nxg"], c["per"])]
-        Ax = lap_oracle({"nd": c["nd"], "per": c["per"], "nxp": nxp, "w": c["w"]}, x) if all(v == v and abs(v) < 1e300 for v in x) else None
+        Ax = lap_oracle({"nd": c["nd"], "per": c["per"], "nxp": nxp, "w": c["w"]}, x) if (finite(x) and finite(b)) else None
         conv = 1 <= it < itmax
         nconv += conv
         if bn <= 1e-14:
@@ -627,10 +634,17 @@ def conv_experiment(run, unit, r, quick):
                 return
             p = split_bar(out[0])
             x = parse_floats(p[2])
+            if not finite(x) or len(x) != len(ref):
+                run.violation("conv:not-finite", "integrate() returned a non-finite or mis-sized surface for gradients of a smooth surface [nd=%d per=%s n=%d]" % (nd, per, n),
+                              {"kind": "unit", "case": line[:100000]})
+                errs = None
+                break
             mx, mr = sum(x) / len(x), sum(ref) / len(ref)
             errs.append(math.sqrt(sum(((a - mx) - (b - mr)) ** 2 for a, b in zip(x, ref)) / len(x)))
             run.count("conv:%d:%s:%d" % (nd, per, n), True)
-        orders = [math.log(errs[i] / errs[i + 1], 2) for i in range(len(errs) - 1)]
+        if errs is None:
+            continue
+        orders = [math.log(max(errs[i], 1e-300) / max(errs[i + 1], 1e-300), 2) for i in range(len(errs) - 1)]
         run.dist("conv:nd=%d,per=%s:order=%.2f" % (nd, "".join(map(str, per)), orders[-1]))
         run.cov["correspondence"].setdefault("convergence", []).append({"nd": nd, "per": per, "n": ns, "rms_error": errs, "orders": orders})
         if not (orders[-1] >= 1.8):
@@ -738,6 +752,9 @@ def e2e(run, r, quick):
         for row, ix in zip(grows, itertools.product(*[range(n) for n in nxg])):
             grad[ix] = row[nd:2 * nd]
         nsamp = sum(int(row[nd]) for row in crows)
+        if not finite(pm) or not all(finite(v) for v in grad.values()):
+            run.violation("e2e:not-finite", "the written PMF or gradients contain non-finite values [%s]" % c["id"], rep)
+            continue
         if abs(min(pm)) > 1e-12:
             run.violation("e2e:minimum", "the written PMF has minimum %r instead of 0" % min(pm), rep)
         if nd == 1:
